@@ -259,7 +259,7 @@ def run_history_range(binary, cfg, seed, lo, hi, extra_args, timeout=600, max_ev
             else:
                 res["inconclusive"].append({"cfg": cfg, "why": "watchdog fired once in history %d (not reproduced)" % h})
             cur = h + 1
-            events += 1
+            events += 4  # time-outs are expensive: at most a few per range
             continue
         if w["rc"] == 0 and summ is not None:
             cur = summ["next"]
